@@ -61,14 +61,15 @@ func (o *Obl) Note(s string) { o.Instance = append(o.Instance, s) }
 
 // Ctx: one property run.
 type Ctx struct {
-	W     *World
-	Prop  string
-	Tier  string
-	Seed  int64
-	Obls  []*Obl
-	byID  map[string]*Obl
-	rule  string
-	cache map[string]*pathSet
+	W       *World
+	Prop    string
+	Tier    string
+	Seed    int64
+	Obls    []*Obl
+	byID    map[string]*Obl
+	rule    string
+	cache   map[string]*pathSet
+	sorters map[string]bool
 	// statistics, measured
 	FuncsAnalysed map[string]bool
 	PathsTotal    int
@@ -150,10 +151,14 @@ type PO struct {
 	Pure       []string // non-inlined module callees treated as pure
 	Callbacks  bool
 	Params     []string
+	// OpaqueSorters: module functions that sort (call sort.* / slices.Sort* directly) stay
+	// opaque and pure, whatever their name, package or signature: rules reason about
+	// "the sorted result of F(x)" instead of looking inside the sort.
+	OpaqueSorters bool
 }
 
 func (po PO) key() string {
-	return fmt.Sprintf("%d|%d|%v|%v|%v|%v|%v", po.Depth, po.Visits, po.NoInline, po.OnlyInline, po.Pure, po.Callbacks, po.Params)
+	return fmt.Sprintf("%d|%d|%v|%v|%v|%v|%v|%v", po.Depth, po.Visits, po.NoInline, po.OnlyInline, po.Pure, po.Callbacks, po.Params, po.OpaqueSorters)
 }
 
 // the derivation functions C17 proves pure: never inlined, always pure.
@@ -194,12 +199,20 @@ func (c *Ctx) Paths(fn *ssa.Function, po PO) []*Path {
 			if containsAny(n, derivationFns) {
 				return false
 			}
+			if po.OpaqueSorters && f != fn && c.isSorter(f) {
+				return false
+			}
 			if len(po.OnlyInline) > 0 {
 				return containsAny(n, po.OnlyInline)
 			}
 			return !containsAny(n, po.NoInline)
 		},
-		PureFns:  func(n string) bool { return containsAny(n, derivationFns) || containsAny(n, po.Pure) },
+		PureFns: func(n string) bool {
+			if containsAny(n, derivationFns) || containsAny(n, po.Pure) {
+				return true
+			}
+			return po.OpaqueSorters && c.sorterNames()[n]
+		},
 		OnInline: func(f *ssa.Function) { c.FuncsAnalysed[shortName(f.String())] = true },
 	}
 	if c.Tier == "thorough" {
@@ -216,6 +229,41 @@ func (c *Ctx) Paths(fn *ssa.Function, po PO) []*Path {
 		panic(err)
 	}
 	return ps.paths
+}
+
+// isSorter: f (closures included) calls sort.* / slices.Sort* directly.
+func (c *Ctx) isSorter(f *ssa.Function) bool {
+	var scan func(g *ssa.Function) bool
+	scan = func(g *ssa.Function) bool {
+		for _, b := range g.Blocks {
+			for _, in := range b.Instrs {
+				if ci, ok := in.(ssa.CallInstruction); ok {
+					if n := staticName(ci.Common()); strings.HasPrefix(n, "sort.") || strings.HasPrefix(n, "slices.Sort") {
+						return true
+					}
+				}
+			}
+		}
+		for _, a := range g.AnonFuncs {
+			if scan(a) {
+				return true
+			}
+		}
+		return false
+	}
+	return f.Parent() == nil && scan(f)
+}
+
+func (c *Ctx) sorterNames() map[string]bool {
+	if c.sorters == nil {
+		c.sorters = map[string]bool{}
+		for _, f := range c.W.Funcs {
+			if c.isSorter(f) {
+				c.sorters[funcName(f)] = true
+			}
+		}
+	}
+	return c.sorters
 }
 
 // ---------------------------------------------------------------------------
